@@ -25,7 +25,7 @@ META = {
                  'C10_v1_refuted_shared_key', 'C10_refuted_sentinel_key', 'C10_refuted_alone_first',
                  'C10_cfg_last_wins', 'C10_cfg_valid', 'C10_cfg_spelling', 'C10_cfg_v1_partial', 'C10_cfg_v0_partial',
                  'C10_gen_history', 'C10_gen_count_independent', 'C10_gen_history_spec_partial', 'C10_gen_never_fails',
-                 'C10_multi_root_partial', 'C10_gen_refuted_default_factory',
+                 'C10_multi_root_partial', 'C10_gen_class_regular', 'C10_gen_default_factory', 'C10_gen_pre_fix_refuted',
                  'C10_dump_catch_exact', 'C10_dump_skip_if_irrelevant', 'C10_dump_catch_rt_v1', 'C10_dump_catch_rt_v0'],
     'tables': [],
     'level_text': ('Theorems proved in Coq for ALL class configurations (policy x CatchAll x tag key), ALL documents and ALL load '
@@ -37,8 +37,9 @@ META = {
                    'depend on the generations that preceded it (v1; default engine: across roots when no ignore-policy load precedes a '
                    'raise-policy load); for ALL dump settings (exclude, skip_defaults, Meta.skip_if, skip_defaults_if, per-field SkipIf, '
                    'key transform) and all truth tables of the conditions the CatchAll branch writes exactly the captured pairs unless the '
-                   'CatchAll FIELD is excluded / skipped as a defaulted field.  Four regions are excluded and refuted with witnesses that '
-                   'replay on the implementation (open findings F19, F41, F10-C10-alone-first, F91).  The model is re-validated against '
+                   'CatchAll FIELD is excluded / skipped as a defaulted field.  Three regions are excluded and refuted with witnesses that '
+                   'replay on the implementation (open findings F19, F41, F10-C10-alone-first); F91 is fixed (d23b12f): the repaired marker is '
+                   'modelled, its region is covered by the full statement, the pre-fix marker is refuted as a named variant.  The model is re-validated against '
                    'the implementation on every run.'),
     'level_note': ('Trusted: Coq kernel + vm_compute; the hand-written model (one class level; a nested dataclass is the abstract '
                    'per-field conversion `conv`, composition over nesting is exercised by the harness at depth 2, not proved); key '
@@ -836,6 +837,8 @@ def model_view(out, spec, child_views, doc=None):
             v['catch'] = {'items': [[k, json.loads(x)] for k, x in kw[c['name']][1]]}
         elif c['name'] in kw:
             v['catch'] = {'bad': kw[c['name']]}
+        elif c.get('factory'):
+            v['catch'] = {'items': []}            # not passed: the constructor calls default_factory=dict
         else:
             v['catch'] = {'default': True}
     return v
@@ -872,10 +875,17 @@ def gen_world(r, counter, forced=None):
     req = [f['name'] for f in inner['fields'] if f['default'] is None]
     opt = [f['name'] for f in inner['fields'] if f['default'] is not None]
     kind = forced['kind'] if forced else r.choice(['none', 'none', 'required', 'default', 'default', 'factory'])
+    if forced and kind == 'factory' and not opt:
+        inner['fields'][-1]['default'] = -1                      # former F91 region: a defaulted field BEFORE the CatchAll field
+        req = [f['name'] for f in inner['fields'] if f['default'] is None]
+        opt = [f['name'] for f in inner['fields'] if f['default'] is not None]
     if kind != 'none':
         cname = r.choice(['extras', 'rest', 'unknown_stuff'])
         inner['catch'] = {'name': cname, 'default': kind == 'default', 'factory': kind == 'factory'}
-        (req if kind == 'required' else opt).insert(r.randint(0, len(req if kind == 'required' else opt)), cname)
+        if forced and kind == 'factory':
+            opt.append(cname)
+        else:
+            (req if kind == 'required' else opt).insert(r.randint(0, len(req if kind == 'required' else opt)), cname)
     inner['order'] = req + opt
     roots = []
     for i in range(2 if forced else r.choice([1, 2, 2])):
@@ -909,7 +919,8 @@ def root_policy(w, i):
 
 
 def in_f91_region(spec):
-    """v1, CatchAll field with a default_factory declared after a defaulted field"""
+    """the FORMER F91 region (fixed by d23b12f; generated on purpose so that a regression gives a concrete input):
+    v1, CatchAll field with a default_factory declared after a defaulted field"""
     c = spec.get('catch')
     if spec['engine'] != 'v1' or not c or not c.get('factory'):
         return False
@@ -930,9 +941,9 @@ def coq_src(spec):
             f = by[n]
             items.append('{| if_name := %s; if_keys := %s; if_default := %s |}' %
                          (coq_str(n), coq_list([coq_str(k) for k in field_keys(spec, f)]), 'true' if f['default'] is not None else 'false'))
-    return ('{| s_name := %s; s_init := %s; s_catch := %s; s_tag := None |}' %
-            (coq_str(spec['name']), coq_list(items),
-             coq_opt('(%s, %s)' % (coq_str(c['name']), 'true' if c['default'] else 'false') if c else None)))
+    # the CATCH_ALL marker is COMPUTED by the model from the field table (FieldsUnknown.class_marker: '?' iff the field has a
+    # default or a default_factory — class_helper after fix d23b12f)
+    return '(mk_src %s %s %s None)' % (coq_str(spec['name']), coq_list(items), coq_opt(coq_str(c['name']) if c else None))
 
 
 def gen_model_expr(w, ms):
@@ -1024,8 +1035,8 @@ def check_gen_world(ctx, w, results, mline, ms, resolved):
         # regions
         reg = None
         if in_f91_region(inner):
-            reg = 'F91-v1-catchall-default-factory-position'
-        elif not v1 and spec['raise'] and first_bad is not None:
+            ctx.hist('former_F91_region', 'ok' if not bad else 'FAILS')
+        if not v1 and spec['raise'] and first_bad is not None:
             u = set(level_unknown(spec, op['docs'][first_bad[0]], ms))
             if u and u <= seen_lax:
                 reg = 'F10-C10-alone-first-negative-cache'
@@ -1043,11 +1054,7 @@ def check_gen_world(ctx, w, results, mline, ms, resolved):
             ctx.traces_validated += 1
             mo = [parse_gout(x) for x in mops[oi]]
             same = True
-            if in_f91_region(inner):
-                mbad = next((m for m in mo if 'ok' not in m), None)
-                # (nested under a v1 root the bare TypeError of the inner constructor call is wrapped into ParseError by the root's field loop)
-                same = (mbad is None and 'ok' in res) or (mbad is not None and res.get('err') in ('TypeError', 'ParseError'))
-            else:
+            if True:
                 mfail = next((m for m in mo if 'ok' not in m), None)
                 if mfail is not None:
                     io = impl_compare_view(res, inner) if 'ok' not in res else {'ok': 1}
@@ -1101,8 +1108,6 @@ def gen_dump_case(r, counter, pending, forced=None):
                      'skip_if': (gen_cond(r) if r.random() < 0.3 else None)}
     if kind == 'required':
         req.insert(r.randint(0, len(req)), cname)
-    elif kind == 'factory' and engine == 'v1':
-        opt.insert(0, cname)                      # outside the F91 region
     else:
         opt.insert(r.randint(0, len(opt)), cname)
     spec['order'] = req + opt
@@ -1371,7 +1376,7 @@ def build_gen_worlds(ctx, pending):
     import itertools
     # systematic: engine x CatchAll kind x every order of first use of (alone, root 0, root 1)
     for engine in ('v1', 'v0'):
-        for kind in ('default', 'required', 'none'):
+        for kind in ('default', 'required', 'none', 'factory'):
             for order in itertools.permutations([-1, 0, 1]):
                 w = gen_world(r, counter, forced={'engine': engine, 'kind': kind})
                 gen_world_ops(r, w, pending, order=order)
@@ -1462,15 +1467,11 @@ def run(ctx):
         ctx.count(1, key='witness:F10alone', nontrivial=True)
         if not still:
             resolved.add('F10-C10-alone-first-negative-cache')
-    if ctx.finding('F91-v1-catchall-default-factory-position'):
-        still = bool(w91.get('mapped_field_changed') or w91.get('known_doc_rejected'))
-        ctx.known_finding('F91-v1-catchall-default-factory-position', still_fails=still)
-        ctx.count(1, key='witness:F91', nontrivial=True)
-        if not still:
-            resolved.add('F91-v1-catchall-default-factory-position')
-    if not w91.get('factory_first_ok', True):
-        ctx.violation('v1 engine: a CatchAll field with default_factory declared BEFORE the defaulted fields no longer receives exactly '
-                      'the unknown pairs', {'kind': 'F91'})
+    ctx.count(1, key='witness:F91', nontrivial=True)
+    if w91.get('mapped_field_changed') or w91.get('known_doc_rejected') or not w91.get('factory_first_ok', True):
+        ctx.violation('v1 engine (F91, fixed by d23b12f, has returned): a CatchAll field with default_factory declared after a defaulted field: '
+                      '{"a": 1, "zz": 5} must load as A(a=1, b=3, rest={"zz": 5}) and {"a": 1, "b": 2} must load; witness outcome %s'
+                      % json.dumps(w91), {'kind': 'F91'})
     if not w10.get('unseen_key_rejected', True):
         ctx.violation('default engine: nested class loaded alone first, then a strict recursive outer class: an unknown nested key that '
                       'was never seen before is accepted', {'kind': 'F10alone'})
@@ -1660,7 +1661,7 @@ def replay(ctx, obj):
     if obj.get('kind') == 'F91' or fid.startswith('F91'):
         w = ctx.impl('c10', {'witness': [{'kind': 'F91'}]})['witness'][0]
         print('witness outcome: %s' % json.dumps(w)[:600])
-        return bool(w.get('factory_first_ok')) and (obj.get('kind') == 'F91' or not (w.get('mapped_field_changed') or w.get('known_doc_rejected')))
+        return bool(w.get('factory_first_ok')) and not (w.get('mapped_field_changed') or w.get('known_doc_rejected'))
     if obj.get('kind') == 'F10alone' or fid.startswith('F10'):
         w = ctx.impl('c10', {'witness': [{'kind': 'F10alone'}]})['witness'][0]
         print('witness outcome: %s' % json.dumps(w)[:600])
